@@ -179,8 +179,9 @@ Rw(op, l) ==
     [] op = "eol_operator" -> LET jl == FirstIdx(its, IsLeadOp)
                                   jn == FirstIdx(its, IsNL)
                               IN SubSeq(its, 1, jn - 1) \o <<L(EolForm[its[jl].x], its[jl].w)>> \o SubSeq(its, jn, jl - 1) \o SubSeq(its, jl + 1, Len(its))
-    [] op = "ternary_first_operand" -> Repl(its, FirstIdx(its, IsOperandItem), <<V1, L(" ? ", 3), V3, L(" : ", 3), N1>>)
-    [] op = "ternary_last_operand" -> Repl(its, LastIdx(its, IsOperandItem), <<V1, L(" ? ", 3), V3, L(" : ", 3), N1>>)
+    (* parenthesised: the operand may be followed by ".x", "[i]", "++" ("4.a" would be a floating constant) *)
+    [] op = "ternary_first_operand" -> Repl(its, FirstIdx(its, IsOperandItem), <<L("(", 1), V1, L(" ? ", 3), V3, L(" : ", 3), N1, L(")", 1)>>)
+    [] op = "ternary_last_operand" -> Repl(its, LastIdx(its, IsOperandItem), <<L("(", 1), V1, L(" ? ", 3), V3, L(" : ", 3), N1, L(")", 1)>>)
     [] op = "mult_assign" -> SubSeq(its, 1, je) \o <<V5, L(" = ", 3)>> \o SubSeq(its, je + 1, Len(its))
     [] op = "assign_in_control" -> Tabs(t) \o <<L("while (", 7), V1, L(" = ", 3), N1, L(")", 1)>>
     [] op = "for_loop" -> Tabs(t) \o <<L("for (", 5), V1, L(" = ", 3), N1, L("; ", 2), V1, L(" < ", 3), N2, L("; ", 2), V1, L("++", 2), L(")", 1)>>
